@@ -1346,6 +1346,10 @@ class Typer:
         return TOP
 
     def _ext(self, dotted, argv):
+        if dotted in ("collections.deque", "deque"):
+            # a deque is a sequence of what it was built from (append/extend/pop/popleft like a list)
+            a0 = self._arg(argv, 0)
+            return seq(self._iter_elem(a0)) if a0 is not None else seq(EMPTY)
         if dotted in ("re.escape", "six.text_type", "json.dumps"):
             return STR
         if dotted in ("json.loads", "json.load"):
@@ -1368,7 +1372,7 @@ class Typer:
         if any(isinstance(a, tuple) and a[0] in ("seq", "tup") for a in recv):
             if name in ("index", "count"):
                 return INT
-            if name == "pop":
+            if name in ("pop", "popleft"):
                 return elem(recv)
             if name == "copy":
                 return recv
